@@ -179,7 +179,9 @@ def run_live(case, out):
             if s in O.INFLIGHT:
                 out.v("order-left-in-flight", dict(tags, status=s, outcome=oc), order=simrun.order_view(o), case=case)
             if s == "PENDING":
-                may_exist = kind == "PLACE" and (oc == "TIMEOUT" or case.get("async")) and not (api is not None and case["attempts"] >= 4)
+                # (async placement: the exchange answers PENDING and the bet id comes with the order stream - but a placement it
+                # REPORTS as failed has been refused, nothing can come of it)
+                may_exist = kind == "PLACE" and (oc == "TIMEOUT" or (case.get("async") and oc != "FAILURE")) and not (api is not None and case["attempts"] >= 4)
                 if not may_exist:
                     out.v("order-left-pending", dict(tags, outcome=oc), order=simrun.order_view(o), case=case)
             if o.trade.status.name == "PENDING":
